@@ -47,6 +47,8 @@ class G:
         self.regime = cfg.get("regime", "grid")
         self.labels = LABELSETS[cfg.get("labels", "plain")]
         self.names = NAMESETS[cfg.get("names", "abcd")]
+        self.grid_max = GRID_MAX if cfg.get("maxn", 8) <= 40 else 16 * GRID_MAX
+        self.deleted = []  # entries recently deleted through step_delete (for "resurrecting" inserts)
 
     # ------------------------------------------------------------- scalars
     def chance(self, p):
@@ -63,8 +65,18 @@ class G:
 
     def raw_time(self):
         r = self.rng
+        if self.regime == "extreme":
+            # magnitudes far apart: sub-nanosecond dyadics next to values around 1e9 / 2**40
+            k = r.random()
+            if k < 0.35:
+                return r.randrange(0, 64) * 2.0 ** -30 + self.pick([0.0, 0.25, 1.0])
+            if k < 0.6:
+                return self.pick([1e9, 2.0 ** 40, 1e12, 123456789.125]) + r.randrange(0, 16) / 8
+            if k < 0.7:
+                return self.pick([1e-7, 3e-7, 1e-9, 5e-324, 2.0 ** -40])
+            return r.randrange(0, 129) / 8
         if self.regime == "grid":
-            return r.randrange(0, GRID_MAX * GRID + 1) / GRID
+            return r.randrange(0, self.grid_max * GRID + 1) / GRID
         k = r.random()
         if k < 0.15:
             return float(r.randrange(0, 1001))
@@ -86,7 +98,7 @@ class G:
             return b
         if k < 0.6:
             return max(0.0, b + self.pick([1, -1]) * self.pick([0.001, 0.01, 0.5, 1.0]))
-        if not self.cfg.get("ulps", False):
+        if not self.cfg.get("ulps", False) and self.regime != "extreme":
             return max(0.0, b + self.pick([1, -1]) * self.pick([0.002, 0.25]))
         if k < 0.8:
             return max(0.0, math.nextafter(b, self.pick([-math.inf, math.inf])))
@@ -103,17 +115,21 @@ class G:
             a, b = self.time(pool), self.time(pool)
             if a > b:
                 a, b = b, a
-            if a < b and (self.regime == "grid" or b - a >= 1e-3 or self.cfg.get("ulps", False)):
+            if a < b and (self.regime in ("grid", "extreme") or b - a >= 1e-3 or self.cfg.get("ulps", False)):
                 return a, b
         a = self.raw_time()
         return a, a + 1.0
 
     def duration(self):
+        if self.regime == "extreme":
+            return self.pick([2.0 ** -30, 1e-7, 1.0, 1e9, 2.0 ** 40])
         if self.regime == "grid":
             return self.rng.randrange(1, 4 * GRID + 1) / GRID
         return self.pick([0.001, 0.1, 0.25, 1.0, 2.5, round(self.rng.random() * 10, 3) + 0.001])
 
     def offset(self):
+        if self.regime == "extreme":
+            return self.pick([-1, 1]) * self.pick([1e9, 2.0 ** 40, 2.0 ** -30, 1e-7, 0.125, 1.0, 1e12])
         if self.regime == "grid":
             return self.rng.randrange(-6 * GRID, 6 * GRID + 1) / GRID
         return self.pick([-1, 1]) * self.pick([0.0, 0.001, 0.1, 0.3, 1.0, 2.5, 7.77, round(self.rng.random() * 20, 3)])
@@ -151,7 +167,7 @@ class G:
         """n distinct sorted times, min gap respected in the decimal regime"""
         r = self.rng
         if self.regime == "grid":
-            hi = self.pick([GRID_MAX * GRID, 4 * GRID, 2 * GRID])
+            hi = self.pick([self.grid_max * GRID, 4 * GRID, 2 * GRID]) if n <= 17 else self.grid_max * GRID
             n = min(n, hi + 1)
             return [x / GRID for x in sorted(r.sample(range(0, hi + 1), n))]
         out = set()
@@ -159,7 +175,7 @@ class G:
         while len(out) < n and guard < 200 + 6 * n:
             guard += 1
             t = self.raw_time()
-            if all(abs(t - u) >= 1e-3 for u in out):
+            if self.regime == "extreme" or all(abs(t - u) >= 1e-3 for u in out):
                 out.add(t)
         return sorted(out)
 
@@ -359,6 +375,18 @@ class G:
         t = world.heap[h]
         mode = mode or self.pick(INS_MODES)
         report = report or self.pick(["silence", "warning"])
+        resurrect = [d for d in self.deleted if len(d) == (3 if isinstance(t, IntervalTier) else 2)]
+        if resurrect and self.chance(0.15):
+            # insert again what an earlier step deleted (same times, maybe another label)
+            d = self.pick(resurrect)
+            vals = list(d[:-1]) + [d[-1] if self.chance(0.5) else self.ins_label()]
+            kind = "I" if isinstance(t, IntervalTier) else "P"
+            cat = self.classify_interval(t, vals[0], vals[1]) if kind == "I" else (
+                "same-time" if any(p.time == vals[0] for p in t.entries) else "free")
+            return {"op": "tier.insertEntry", "recv": h, "a": [self.enc_entry(vals, kind)],
+                    "k": {"collisionMode": mode, "collisionReportingMode": report},
+                    "tag": "F-coll" if (mode == "error" and cat not in ("free", "disjoint", "touching", "outside")) else None,
+                    "cat": cat}
         if isinstance(t, IntervalTier):
             s, e, cat = self.interval_to_insert(t, extra_pool)
             entry = self.enc_entry([self.numtype(s), self.numtype(e), self.ins_label()], "I")
@@ -394,6 +422,8 @@ class G:
             present = self.chance(0.7)
         if ents and present:
             e = list(self.pick(ents))
+            self.deleted.append(tuple(e))
+            del self.deleted[:-6]
             return {"op": "tier.deleteEntry", "recv": h, "a": [self.enc_obj(e, kind)]}
         # absent: a different label on an existing entry, or times >= 0.5 away from everything
         if ents and self.chance(0.5):
